@@ -8,6 +8,7 @@ import (
 	"encoding/json"
 	"fmt"
 	"os"
+	"path/filepath"
 	"regexp"
 	"sync/atomic"
 	"time"
@@ -193,9 +194,25 @@ var SpecH = &gen.Spec{
 	PerVM:   1, // every transition is replayed on a fresh runtime
 	Runs: func(c *core.Ctx) []gen.RunCfg {
 		depth := 3
-		return []gen.RunCfg{{Name: fmt.Sprintf("lastIndex-histories-depth%d-%s", depth, c.Tier),
-			Cfg: fmt.Sprintf("CONSTANTS\n OpenDev = %s\n Tier = %q\n MaxLen = %d\nINIT Init\nNEXT Next\nVIEW View\nCHECK_DEADLOCK FALSE\nINVARIANT LastIndexShape\nPROPERTIES NonGlobalNeverAdvances SearchSplitLeaveState\n",
-				core.TLASet(c.Findings.OpenIDs()), c.Tier, depth)}}
+		hcfg := func(maxLen int, props bool) string {
+			s := fmt.Sprintf("CONSTANTS\n OpenDev = %s\n Tier = %q\n MaxLen = %d\nINIT Init\nNEXT Next\nVIEW View\nCHECK_DEADLOCK FALSE\n",
+				core.TLASet(c.Findings.OpenIDs()), c.Tier, maxLen)
+			if props {
+				s += "INVARIANT LastIndexShape\nPROPERTIES NonGlobalNeverAdvances SearchSplitLeaveState\n"
+			}
+			return s
+		}
+		// (1) every (object state, call) pair reachable within `depth` calls, each once (VIEW hides the history);
+		// (2) random longer call sequences (no state is merged in simulation mode)
+		n, d := 12, 6
+		if c.Thorough() {
+			n, d = 60, 8
+		}
+		return []gen.RunCfg{
+			{Name: fmt.Sprintf("lastIndex-histories-bfs-depth%d-%s", depth, c.Tier), Cfg: hcfg(depth, true)},
+			{Name: fmt.Sprintf("lastIndex-histories-simulate-%dx%d", 4*n, d), Cfg: hcfg(d, false),
+				Opts: tlc.Opts{Workers: 4, Simulate: true, Num: n, Depth: d + 1, Seed: c.Seed}},
+		}
 	},
 }
 
@@ -216,6 +233,39 @@ func addInt(dst map[string]any, src map[string]any, keys ...string) {
 	}
 }
 
+// mutation is the seeded defect of the binding self-test: the harness-side
+// adapter makes exec forget the last capture, so the implementation under test
+// no longer does what the specification says and the check must reject it.
+const mutation = `
+(function(){ var e = RegExp.prototype.exec;
+  RegExp.prototype.exec = function(s){ var x = e.call(this, s); if (x !== null && x.length > 1) x[x.length - 1] = undefined; return x; }; })();
+`
+
+// selfTest replays a random sample of the generated cases against the mutated
+// adapter on a private context and returns the cases evaluated and rejected.
+func selfTest(c *core.Ctx) (cases, rejected int64, err error) {
+	mc, err := core.NewCtx(c.Property+"-selftest", "quick")
+	if err != nil {
+		return 0, 0, err
+	}
+	mc.Seed = c.Seed
+	defer os.RemoveAll(filepath.Join(core.Root, "replays", mc.Property))
+	dump := os.Getenv("VERIF_DEBUG_DUMP")
+	os.Unsetenv("VERIF_DEBUG_DUMP")
+	defer os.Setenv("VERIF_DEBUG_DUMP", dump)
+	spec := *Spec
+	spec.Prelude = Prelude + mutation
+	spec.Runs = func(*core.Ctx) []gen.RunCfg {
+		return []gen.RunCfg{{Name: "selftest-sample", Cfg: cfg(mc, []string{"f4"}, 4, 0, 2), Opts: tlc.Opts{Seed: c.Seed}}}
+	}
+	cov, _, err := gen.Check(mc, &spec)
+	if err != nil {
+		return 0, 0, err
+	}
+	n, _ := cov["evaluations"].(int64)
+	return n, int64(len(mc.Violations())), nil
+}
+
 func Check(c *core.Ctx) (map[string]any, []string, error) {
 	fams := families()
 	cov, assume, err := gen.Check(c, Spec)
@@ -233,6 +283,17 @@ func Check(c *core.Ctx) (map[string]any, []string, error) {
 		cov["tlc_runs"] = append(cov["tlc_runs"].([]map[string]any), hc["tlc_runs"].([]map[string]any)...)
 		cov["lastindex_state_machine"] = map[string]any{"transitions_replayed": hc["evaluations"], "distinct_expected_outcomes": hc["distinct_expected_outcomes"],
 			"model_properties_checked": []string{"LastIndexShape", "NonGlobalNeverAdvances", "SearchSplitLeaveState"}}
+	}
+	if os.Getenv("VERIF_C10_FAMS") == "" {
+		n, rej, err := selfTest(c)
+		if err != nil {
+			return nil, nil, fmt.Errorf("binding self-test: %v", err)
+		}
+		if rej == 0 {
+			return nil, nil, fmt.Errorf("binding self-test: the mutated adapter (exec forgets the last capture) was accepted on %d cases", n)
+		}
+		cov["binding_selftest"] = map[string]any{"mutation": "harness adapter: RegExp.prototype.exec forgets the last capture",
+			"cases_sampled": n, "cases_rejected": rej}
 	}
 	if has(fams, "xlate") {
 		tr, err := translate(c)
